@@ -206,13 +206,14 @@ def check_build(facts, chk, rule, tier):
                 names, rows, _w = W.table('all.skf')
                 bad.append(((k, ss, 'file list', lines), 'saved table (names %s) differs from the build of each line\'s own files; rows only saved %s, only specified %s' %
                             (names, [r for r in rows if r not in want[1]][:3], [r for r in want[1] if r not in rows][:3])))
-    if tier == 'thorough':
-        long = [('l0', ['ACCAGTTGACCATGGTACCAGATTACAGGCATCCAAGT']), ('l1', ['ACCAGTTGACCATGGTACGAGATTACAGGCATCCAAGT'])]
+    # both sides of the integer-width boundary: k = 31 is stored with 64-bit, k = 33 with 128-bit split k-mers
+    long = [('l0', ['ACCAGTTGACCATGGTACCAGATTACAGGCATCCAAGT']), ('l1', ['ACCAGTTGACCATGGTACGAGATTACAGGCATCCAAGT'])]
+    for kk, ww in ((31, 'u64'), (33, 'u128')):
         n += 1
-        W, st = world_with_build(facts, long, 33, 0)
-        want = spec_table(long, 33, 1)
-        if st != 0 or W.table('all.skf') != (want[0], want[1], 'u128'):
-            bad.append(((33, 0, False), 'k=33 build: status %s' % (st,)))
+        W, st = world_with_build(facts, long, kk, 0)
+        want = spec_table(long, kk, 1)
+        if st != 0 or 'all.skf' not in W.skf or W.table('all.skf') != (want[0], want[1], ww):
+            bad.append(((kk, 0, False), 'k=%d build: status %s, width %s (expected %s)' % (kk, st, W.skf.get('all.skf', (None, None))[1], ww)))
     _report(chk, rule, rule + ':build', 'main: Commands::Build', bad, n, 'ska build through main(): sample names, strand mode, k and the saved table == specification (%d runs)')
 
 
